@@ -53,17 +53,27 @@ var stateCode = map[string]int{"New": 0, "Booting": 1, "Running": 2, "Reloading"
 var pathUniverse = []string{"/r1", "/r2", "/r3", "/r4"}
 
 type wrapSrv struct {
-	h     *hist
-	sid   int
-	inner httpserver.HttpServer
-	cfg   int
+	h       *hist
+	sid     int
+	inner   httpserver.HttpServer
+	cfg     int
+	lasDone atomic.Bool // ListenAndServe has returned: this server holds no listener any more
 }
 
 func (w *wrapSrv) ListenAndServe() error {
 	err := w.inner.ListenAndServe()
+	w.lasDone.Store(true)
 	if err == nil || errors.Is(err, http.ErrServerClosed) {
 		w.h.rec.Emit("LX%d", w.sid)
 	} else {
+		// a bind failure on an address the harness did not pre-bind itself: another process on this machine took
+		// the port between its reservation and its use (environment noise, not behaviour of the runner)
+		w.h.mu.Lock()
+		a := w.h.cfgs[w.cfg].Addr
+		if !w.h.foreignNow[a] {
+			w.h.envNoise = fmt.Sprintf("unexpected bind failure of server %d on %s: %v", w.sid, a, err)
+		}
+		w.h.mu.Unlock()
 		w.h.rec.Emit("LF%d", w.sid)
 	}
 	return err
@@ -146,6 +156,9 @@ type hist struct {
 	fakeFail  atomic.Bool
 	slowBind  atomic.Bool
 	lastDelivered atomic.Int64 // table index of the configuration the callback delivered last
+	foreignNow map[string]bool // canonical addresses the harness itself holds bound (guarded by mu)
+	envNoise   string
+	portNoise  int
 	props     []string
 	parked    bool
 	parksHit  int
@@ -193,6 +206,15 @@ func (h *hist) intern(c cfgSpec) int {
 		h.addrsUsed = append(h.addrsUsed, c.Addr)
 	}
 	return len(h.cfgs) - 1
+}
+
+func (h *hist) setForeign(a string, v bool) {
+	h.mu.Lock()
+	if h.foreignNow == nil {
+		h.foreignNow = map[string]bool{}
+	}
+	h.foreignNow[a] = v
+	h.mu.Unlock()
 }
 
 // useAddr makes an address known to the snapshots.
@@ -607,6 +629,7 @@ func (h *hist) run() {
 				l, err := net.Listen("tcp", h.real[a])
 				if err == nil {
 					h.foreign[a] = l
+					h.setForeign(a, true)
 					h.useAddr(a)
 					h.rec.Emit("FB%s", hx(a))
 				}
@@ -615,6 +638,7 @@ func (h *hist) run() {
 			if l, ok := h.foreign["A3"]; ok {
 				l.Close()
 				delete(h.foreign, "A3")
+				h.setForeign("A3", false)
 				h.rec.Emit("FF%s", hx("A3"))
 			}
 		case "failstop":
@@ -665,6 +689,7 @@ func (h *hist) run() {
 					l, err := net.Listen("tcp", h.real["A3"])
 					if err == nil {
 						h.foreign["A3"] = l
+						h.setForeign("A3", true)
 						h.useAddr("A3")
 						h.rec.Emit("FB%s", hx("A3"))
 					}
@@ -815,8 +840,34 @@ func (h *hist) run() {
 			l, err := net.Listen("tcp", h.real[a])
 			if err == nil {
 				l.Close()
+				h.prop("c12-released", true, "after Run returned: net.Listen(%s) err=<nil>", a)
+				continue
 			}
-			h.prop("c12-released", err == nil, "after Run returned: net.Listen(%s) err=%v", a, err)
+			// still bound: by whom?  If every server this runner created for that address has returned from
+			// ListenAndServe, the holder is another process on this machine that was handed the freed port
+			// (environment noise: counted, not judged).
+			ours := false
+			h.mu.Lock()
+			for _, w := range h.servers {
+				if h.cfgs[w.cfg].Addr == a && !w.lasDone.Load() {
+					ours = true
+				}
+			}
+			h.mu.Unlock()
+			if !ours {
+				h.portNoise++
+				continue
+			}
+			h.rec.Emit("DL%s:1", hx(a))
+			transient := false
+			for k := 0; k < 20 && !transient; k++ {
+				time.Sleep(10 * time.Millisecond)
+				if l2, err2 := net.Listen("tcp", h.real[a]); err2 == nil {
+					l2.Close()
+					transient = true
+				}
+			}
+			h.prop("c12-released", false, "after Run returned: net.Listen(%s) err=%v transient=%v", a, err, transient)
 		}
 	}
 	for _, l := range h.foreign {
@@ -828,9 +879,14 @@ func (h *hist) run() {
 		encs = append(encs, c.enc())
 	}
 	js, _ := json.Marshal(h.sc)
+	if h.envNoise != "" {
+		// not a trace of the runner in the modelled environment: counted, never judged
+		emitLine("HENV\t%s\t%s\t%s", h.sc.Name, h.envNoise, js)
+		return
+	}
 	emitLine("H\t%s\t%s\t%d\t%s", h.sc.Name, strings.Join(encs, "|"), 0, strings.Join(h.rec.Events(), " "))
-	emitLine("HS\t%s\tkind=%s parks_hit=%d parks_missed=%d quiesced=%d servers=%d events=%d\t%s", h.sc.Name, h.sc.Kind,
-		h.parksHit, h.parksMiss, h.quiesced, len(h.servers), len(h.rec.Events()), js)
+	emitLine("HS\t%s\tkind=%s parks_hit=%d parks_missed=%d quiesced=%d servers=%d events=%d port_noise=%d\t%s", h.sc.Name, h.sc.Kind,
+		h.parksHit, h.parksMiss, h.quiesced, len(h.servers), len(h.rec.Events()), h.portNoise, js)
 	for _, p := range h.props {
 		emitLine("PROP\t%s\t%s", h.sc.Name, p)
 	}
@@ -962,6 +1018,17 @@ func runHist() {
 				scripts = append(scripts, randomScript(r, i))
 			}
 		}
+	}
+	if *repeat > 1 {
+		var rs []hscript
+		for k := 0; k < *repeat; k++ {
+			for _, s := range scripts {
+				c := s
+				c.Name = fmt.Sprintf("%s#%d", s.Name, k)
+				rs = append(rs, c)
+			}
+		}
+		scripts = rs
 	}
 	for _, s := range scripts {
 		if *only != "" && !strings.Contains(s.Name, *only) {
